@@ -507,6 +507,31 @@ def run_case(case, ctx):
             return
         if not ok:
             ctx.violation(case, {"subject": "hyperv." + kind, "kind": "item-access-mismatch"}, {})
+            return
+        # what a caller does with a result does not change the next one: empty every dictionary of the first result (and of
+        # the item-access subtrees), decode again
+        try:
+            _scrub(got)
+            for k in list(hf.keys() if hasattr(hf, "keys") else []):
+                sub = hf[k]
+                if hasattr(sub, "as_dict"):
+                    _scrub(sub.as_dict())
+            again = hf.as_dict()
+        except Exception as e:
+            ctx.violation(case, {"subject": "hyperv." + kind, "kind": "exception-on-second-decode", "exc": type(e).__name__},
+                          {"exception": repr(e)[:300]})
+            return
+        if not _same(again, expected):
+            ctx.violation(case, {"subject": "hyperv." + kind, "kind": "tree-mismatch-after-caller-changed-earlier-result"},
+                          {"got": repr(again)[:500], "expected": repr(expected)[:500]})
+
+
+def _scrub(d):
+    if isinstance(d, dict):
+        for v in list(d.values()):
+            _scrub(v)
+        d.clear()
+        d["scrubbed-by-caller"] = 1
 
 
 def _revalue(tree):
